@@ -848,7 +848,12 @@ def setup_refs(h):
     tgt = rng.choice(ts) if rng.random() < 0.8 else src
     kind = rng.choice(["Ref", "RefList", "RefList"])
     name = gen.new_name()
-    yield [["AddColumn", src["tableId"], name, {"type": "%s:%s" % (kind, tgt["tableId"]), "isFormula": False}]]
+    info = {"type": "%s:%s" % (kind, tgt["tableId"]), "isFormula": False}
+    if rng.random() < 0.3:
+      # data column with a trigger (default-value) formula: has_formula() is true, is_formula() is not
+      info["formula"] = "None"
+      info["recalcWhen"] = 0
+    yield [["AddColumn", src["tableId"], name, info]]
     w = World(h.doc)
     src = w.tables.get(src["tableId"])
     cs = [c for c in (src["cols"] if src else []) if c["colId"] == name]
